@@ -418,6 +418,22 @@ STAT_EXTRA = dict(
 )
 
 
+def obligations_pad(timeout=2400, audit_timeout=1200):
+    """The padding clause of C07 composed with C01 only (coq/e2e/E2EPadding.v): for C07."""
+    return obligations(timeout, audit_timeout, which="pad")
+
+
+# what C07 merges into its SPEC (thorough tier):   SPEC = dict(..., **e2e.PAD_EXTRA)
+PAD_EXTRA = dict(
+    extra_obligations={"thorough": obligations_pad},
+    extra_obligations_name="coq/e2e/E2EPadding.v: the padding clause of C07 composed with C01 -- from a configured striped "
+                           "sequence and a scoring matrix with a -inf wildcard column to the score matrix of every scoring "
+                           "backend and the max / argmax / threshold of every arm; witness that the wildcard-padding "
+                           "premise is needed",
+    extra_obligations_cmd="make -C coq/e2e (and imported groups) + Print Assumptions audit of LME2E.E2EPadding",
+)
+
+
 def _translators():
     """Regenerate the Gen*.v files the composed groups depend on (what their own checks do first)."""
     errs = []
